@@ -202,7 +202,9 @@ def queries(tier):
         cubes = list(slot_cubes(3, "SIiV", first="S", defaults=dflt, table=table)) + \
             [c for c in slot_cubes(3, "SI", first="IN", defaults=dflt, table=table) if c[0][1] == "S"]
     else:
-        cubes = list(slot_cubes(3, "SsIiPoNV", defaults=dflt, table=table))
+        # (first transaction restricted to the ones that can matter at address 0 / unconfigured: 5 x 8 x 8 = 320, minus the
+        #  sequences a legal host cannot produce)
+        cubes = list(slot_cubes(3, "SsIiPoNV", first="SsINV", defaults=dflt, table=table))
     def legal_after_reset(name):
         """after a bus reset (VBUS loss) the host restarts with a SETUP: no IN/OUT before the next SETUP"""
         seen_v = False
@@ -220,10 +222,10 @@ def queries(tier):
         qs.append(Query(f"bmc_3slots_{name}", f3, 32 * 3 + 2, layer=layer, covers=[], timeout=900, split=False,
                         desc=f"3 transactions {name}: device address/configuration equal the ghost after every slot"))
     if tier == "thorough":
-        for name, layer in slot_cubes(4, "SIiV", first="S", defaults=dflt, table=table):
+        for name, layer in slot_cubes(4, "SIV", first="S", defaults=dflt, table=table):
             if not legal_after_reset(name):
                 continue
-            qs.append(Query(f"bmc_4slots_{name}", f4, 32 * 4 + 2, layer=layer, covers=[], timeout=900, split=False,
+            qs.append(Query(f"bmc_4slots_{name}", f4, 32 * 4 + 2, layer=layer, covers=[], timeout=900, split=False, required=False,
                             desc=f"4 transactions {name}"))
     qs.append(Query("cosim", f3, 0, kind="cosim", cosim_cycles=100 if tier == "quick" else 400))
     return qs
